@@ -13,7 +13,8 @@ open CuqiVerif CuqiVerif.Proto CuqiVerif.C09
      NSTEPS `1,-,3`              num_sampling_steps (`-` = key absent)
      UINIT  `-;1;-`              `initial_point` given by the user (`-` = None)
      DINIT  `1;1;0,0,0`          the sampler's default initial point
-     CALLS  `3,4`                sweeps per warmup/sample call
+     CALLS  `3,4@2:1:0`          sweeps per warmup/sample call; `@a:b:c` = num_sampling_steps re-assigned
+                                 (all names, in NAMES order) before that call
      DRAWS  `1|3/2;0|1,1;…`      transitions in call order: `acc|point` (`_` = none)
   `lg NAMES INITPTS DIMS CALLS DRAWS`
      INITPTS `-;1,2;-`           `init_point` attribute of the block's density (`-` = absent)
@@ -72,11 +73,20 @@ def hasDup : List String → Bool
 def parseOptVec (s : String) : Option (Option Val) :=
   if s = "-" then some none else (fun v => some v) <$> parseVec s
 
+def parseHCall (k : Nat) (s : String) : Option (Nat × Option (List Int)) :=
+  match s.splitOn "@" with
+  | [a] => (fun n => (n, none)) <$> a.toNat?
+  | [a, b] => do
+    let n ← a.toNat?
+    let ns ← (b.splitOn ":").mapM (fun t => t.toInt?)
+    if ns.length = k then pure (n, some ns) else none
+  | _ => none
+
 def parseSid (s : String) : Option (Option Nat) :=
   if s = "-" then some none else (fun k => some k) <$> s.toNat?
 
 def runHG (names : List String) (flags : List (Bool × Bool × Bool)) (sids : List (Option Nat))
-    (nsteps : List (Option Int)) (uinit : List (Option Val)) (dinit : List Val) (calls : List Nat)
+    (nsteps : List (Option Int)) (uinit : List (Option Val)) (dinit : List Val) (calls : List (Nat × Option (List Int)))
     (draws : List (Draw Val)) : String :=
   let k := names.length
   if flags.length != k || (sids.length != k && sids.length != k + 1) || nsteps.length != k
@@ -90,11 +100,16 @@ def runHG (names : List String) (flags : List (Bool × Bool × Bool)) (sids : Li
       let init := initialPoints (lookup names uinit none) (lookup names dinit [])
       let g0 : HG String Val := construct names (lookup names nsteps none) init
         (lookup names flags (false, false, false))
-      let need := calls.foldl (· + ·) 0 * (names.map g0.nsteps).foldl (· + ·) 0
+      let ds : Nat → Draw Val := fun i => draws.getD i ⟨[], false⟩
+      let runCall : HG String Val → (Nat × Option (List Int)) → HG String Val := fun g c =>
+        let g' := match c.2 with
+          | none => g
+          | some ns => reconfigure g (lookup names ns 1)
+        sampleN ds c.1 g'
+      let g := calls.foldl runCall g0
+      let need := g.pos
       if draws.length != need then s!"err|draws|{need}"
       else
-        let ds : Nat → Draw Val := fun i => draws.getD i ⟨[], false⟩
-        let g := calls.foldl (fun g c => sampleN ds c g) g0
         " ".intercalate (g.log.map fmtEv) ++ s!" # {g.pos} # " ++ " ".intercalate (g.stored.map fmtDict)
           ++ " # " ++ fmtDict (tuple names init)
 
@@ -138,7 +153,7 @@ def step : List String → String
   | ["hg", names, flags, sids, nsteps, uinit, dinit, calls, draws] =>
     match parseList "," some names, parseList "," parseFlag flags, parseList "," parseSid sids,
           parseList "," parseOptInt nsteps, parseList ";" parseOptVec uinit, parseMat dinit,
-          parseNatList calls, parseList ";" parseDraw draws with
+          (parseList "," some names).bind (fun ns => parseList "," (parseHCall ns.length) calls), parseList ";" parseDraw draws with
     | some names, some flags, some sids, some nsteps, some uinit, some dinit, some calls, some draws =>
       runHG names flags sids nsteps uinit dinit calls draws
     | _, _, _, _, _, _, _, _ => "bad-op"
